@@ -23,3 +23,4 @@ if [ -f /tmp/w/hashmap.txt ]; then
     grep -rl --include='*.txt' --include='*.md' --include='*.json' --include='*.py' --include='*.v' "$old" KNOWN_FINDINGS.txt design manifest.d harness coq/theories coq/props 2>/dev/null | xargs -r sed -i "s/$old/$new/g"
   done < /tmp/w/hashmap.txt
 fi
+git add -A; git diff --cached --quiet || git commit -qm "merge b-$n: fix-commit hashes remapped to /repo main"
